@@ -281,6 +281,13 @@ def make_converter(ty: IntoConverter, handlers: ConverterHandlers = ConverterHan
 
     # tuple converter
     if issubclass(base, (tuple, t.Tuple)):
+        if len(args) == 0 and hasattr(base, '_fields') and hasattr(base, '_make'):
+            # a named tuple: one slot per field, of the annotated type (if any)
+            try:
+                hints = t.get_type_hints(base)
+            except Exception:
+                hints = {}
+            return TupleConverter(base, tuple(hints.get(f, t.Any) for f in base._fields), handlers=handlers)  # type: ignore
         # treat tuple[int, ...] and tuple[()] correctly
         if len(args) > 0 and args[-1] != Ellipsis \
               or args == () and hasattr(ty, '__args__'):
